@@ -64,7 +64,8 @@ def variants(ctx, n):
         base = gen_scripts.render(toks)
         flipped = [(t.swapcase() if (t[:1].isalpha() or t[:1] == b":") and not t.startswith(b"text:") else t) for t in toks]
         out.append((base, [gen_scripts.render(flipped), gen_scripts.render(toks, r, "rand"), b" \r\n".join(toks),
-                           b"\t".join(toks), b" /* x */ ".join(toks) + b" # end", b"\r\n".join(toks) + b"\r\n"]))
+                           b"\t".join(toks), b" /* x */ ".join(toks) + b" # end", b"\r\n".join(toks) + b"\r\n",
+                           gen_scripts.render(toks, None, "tight"), gen_scripts.render(toks, None, "tightc")]))
     return out
 
 
